@@ -205,6 +205,7 @@ func replayDuration(args []string) error {
 	}
 	n, cut := 0, 0
 	dd := vh.NewDedup()
+	keep := &keeper{name: "timeutil.Duration.MarshalText"}
 	err = vh.ForEachVector(args[0], func(_ int, raw []byte) error {
 		var v vec
 		if err := json.Unmarshal(raw, &v); err != nil {
@@ -215,6 +216,11 @@ func replayDuration(args []string) error {
 			return err
 		}
 		n++
+		vh.Try(func() {
+			if b, err := timeutil.Duration(val).MarshalText(); err == nil {
+				keep.add(n, b) // retained uncopied, re-read after the whole run
+			}
+		})
 		dd.Add(raw)
 		std, str := durJoin(v.Std), durJoin(v.Str)
 		if std != str {
@@ -228,7 +234,8 @@ func replayDuration(args []string) error {
 	if err != nil {
 		return err
 	}
-	return res.Close(map[string]any{"vectors": n, "evaluations": n, "cut_texts": cut, "distinct_nontrivial": dd.N()})
+	keep.verify(res)
+	return res.Close(map[string]any{"vectors": n, "evaluations": n, "cut_texts": cut, "distinct_nontrivial": dd.N(), "retained_results": len(keep.held)})
 }
 
 // randDuration is biased towards unit boundaries.
@@ -428,6 +435,7 @@ func replayHostPort(args []string) error {
 	var md modelDiffs
 	n, evals := 0, 0
 	dd := vh.NewDedup()
+	keepHP := &keeper{name: "netutil.HostPort.MarshalText"}
 	err = vh.ForEachVector(args[0], func(_ int, raw []byte) error {
 		var v vec
 		if err := json.Unmarshal(raw, &v); err != nil {
@@ -460,6 +468,11 @@ func replayHostPort(args []string) error {
 			want.WriteString(conc(v.Text[:colon+1], p, d))
 			want.WriteString(strings.Join(v.Text[colon+1:], ""))
 			evals++
+			vh.Try(func() {
+				if b, err := (netutil.HostPort{Host: host, Port: uint16(v.Port)}).MarshalText(); err == nil {
+					keepHP.add(n, b)
+				}
+			})
 			text, ok := judgeHostPort(res, netutil.HostPort{Host: host, Port: uint16(v.Port)})
 			if ok && text != want.String() {
 				md.add("HostPort{%q,%d}.String() = %q, HostPort.tla Join predicts %q", host, v.Port, text, want.String())
@@ -473,10 +486,12 @@ func replayHostPort(args []string) error {
 	if err != nil {
 		return err
 	}
+	keepHP.verify(res)
 	if err := md.finish(res); err != nil {
 		return err
 	}
-	return res.Close(map[string]any{"vectors": n, "evaluations": evals, "distinct_nontrivial": dd.N(), "model_diffs": md.n})
+	return res.Close(map[string]any{"vectors": n, "evaluations": evals, "distinct_nontrivial": dd.N(), "model_diffs": md.n,
+		"retained_results": len(keepHP.held)})
 }
 
 func recordHostPort(args []string) error {
@@ -915,6 +930,8 @@ func replayURL(args []string) error {
 	var md modelDiffs
 	n, accepted, evals := 0, 0, 0
 	dd := vh.NewDedup()
+	keepText := &keeper{name: "urlutil.URL.MarshalText"}
+	keepJSON := &keeper{name: "json.Marshal(*urlutil.URL)"}
 	err = vh.ForEachVector(args[0], func(_ int, raw []byte) error {
 		var v vec
 		if err := json.Unmarshal(raw, &v); err != nil {
@@ -944,6 +961,14 @@ func replayURL(args []string) error {
 		accepted++
 		s0, trips := judgeURL(res, input, u)
 		evals += len(trips)
+		vh.Try(func() {
+			if b, err := u.MarshalText(); err == nil {
+				keepText.add(n, b) // retained uncopied across all later URLs
+			}
+			if b, err := json.Marshal(u); err == nil {
+				keepJSON.add(n, b)
+			}
+		})
 		if v.Accept && s0 != text {
 			md.add("Parse(%q).String() = %q, UrlModel.tla predicts %q", input, s0, text)
 		}
@@ -975,11 +1000,13 @@ func replayURL(args []string) error {
 			accepted++
 		}
 	}
+	keepText.verify(res)
+	keepJSON.verify(res)
 	if err := md.finish(res); err != nil {
 		return err
 	}
 	return res.Close(map[string]any{"vectors": n, "accepted": accepted, "evaluations": evals, "distinct_nontrivial": dd.N(),
-		"model_diffs": md.n, "edge_class_failures": edgeCount})
+		"model_diffs": md.n, "edge_class_failures": edgeCount, "retained_results": len(keepText.held) + len(keepJSON.held)})
 }
 
 func recordURL(args []string) error {
